@@ -586,7 +586,6 @@ type TEmb struct {
 type TPP struct {
 	P **int     `plenc:"1"`
 	Q *[]string `plenc:"2"`
-	R *[]TIn    `plenc:"3"`
 }
 
 type TPS struct {
@@ -655,4 +654,20 @@ type KxHighPrime struct {
 	B int    `plenc:"102"`
 	C string `plenc:"103"`
 	D int    `plenc:"200"`
+}
+
+// ---- shapes added after the fifth campaign
+
+// indexes above 255 declared out of ascending order
+type TIdxHighDesc struct {
+	A bool `plenc:"1000"`
+	B bool `plenc:"300"`
+	C bool `plenc:"2000"`
+	D bool `plenc:"256"`
+	E bool `plenc:"7"`
+}
+
+// a map whose key and value are both fixed-width on the wire
+type TMapFF struct {
+	M map[float32]float64 `plenc:"1"`
 }
